@@ -144,7 +144,35 @@ class CallMixin:
         return summ
 
     # -- the Call expression -------------------------------------------------------------------------
+    _FACT_SAFE_CALLS = {"len", "isinstance", "enumerate", "zip", "range", "list", "tuple", "dict", "set", "str", "repr", "type", "iter",
+                        "sorted", "reversed", "any", "all", "sum", "min", "max", "bool", "int", "float", "id", "hash", "callable", "print", "format"}
+
+    def _drop_attr_facts(self, node, env):
+        """A call that could rebind an attribute invalidates the `x.a is truthy` facts about its
+        receiver / name arguments (sound: facts are only ever removed)."""
+        facts = env.get("$attrfacts")
+        if not facts:
+            return
+        f = node.func
+        if isinstance(f, ast.Name) and f.id in self._FACT_SAFE_CALLS and f.id not in env:
+            return
+        touched = set()
+        if isinstance(f, ast.Attribute):
+            b = f.value
+            while isinstance(b, (ast.Attribute, ast.Subscript, ast.Call)):
+                b = b.func if isinstance(b, ast.Call) else b.value
+            if isinstance(b, ast.Name):
+                touched.add(b.id)
+        for a in list(node.args) + [k.value for k in node.keywords]:
+            for n in ast.walk(a):
+                if isinstance(n, ast.Name):
+                    touched.add(n.id)
+        keep = frozenset(x for x in facts if x[0] not in touched)
+        if keep != facts:
+            env["$attrfacts"] = keep
+
     def e_Call(self, node: ast.Call, env, frame):
+        self._drop_attr_facts(node, env)
         f = node.func
         # super().m(...)
         if isinstance(f, ast.Attribute) and isinstance(f.value, ast.Call) and isinstance(f.value.func, ast.Name) and f.value.func.id == "super":
